@@ -266,8 +266,34 @@ def _nanprop(f):
     return g
 
 
-minimum = _binary(_nanprop(E.smin))
-maximum = _binary(_nanprop(E.smax))
+def _keep_int_dtype(g):
+    """minimum/maximum of a narrow-integer array and a Python int (or an array of the same dtype) keep the dtype
+    (NEP 50: Python scalars are weak), like numpy; everything else falls back to inference."""
+    def h(a, b):
+        from .pdcore import INT_BITS
+        for x, y in ((a, b), (b, a)):
+            dt = getattr(x, "_dtype", None)
+            if dt in INT_BITS and isinstance(y, int) and not isinstance(y, bool) and not (
+                    -(1 << (INT_BITS[dt] - 1)) <= y < (1 << (INT_BITS[dt] - 1))):
+                raise OverflowError(f"Python integer {y} out of bounds for {dt}")
+        r = g(a, b)
+        for x, y in ((a, b), (b, a)):
+            dt = getattr(x, "_dtype", None)
+            if dt in INT_BITS and hasattr(r, "_dtype"):
+                bits = INT_BITS[dt]
+                if (isinstance(y, int) and not isinstance(y, bool) and -(1 << (bits - 1)) <= y < (1 << (bits - 1))) or \
+                        getattr(y, "_dtype", None) == dt:
+                    try:
+                        r._dtype = dt
+                    except Exception:       # noqa: BLE001
+                        pass
+                break
+        return r
+    return h
+
+
+minimum = _keep_int_dtype(_binary(_nanprop(E.smin)))
+maximum = _keep_int_dtype(_binary(_nanprop(E.smax)))
 greater = _binary(_cmpop(lambda a, b: a > b))
 less = _binary(_cmpop(lambda a, b: a < b))
 greater_equal = _binary(_cmpop(lambda a, b: a >= b))
@@ -343,9 +369,19 @@ def unique(x, axis=None, return_index=False, return_counts=False):
             order = sort_positions([[r[j] for r in rows] for j in range(len(rows[0]))], stable=True)
         else:
             order = range(len(rows))     # distinct rows in first-occurrence order (row order not modelled)
+        def same_row(o, r):
+            terms = []
+            for a, b in zip(o, r):
+                if not E.is_sym(a) and not E.is_sym(b):
+                    if not (a == b or (a != a and b != b)):
+                        return False            # a concrete column differs: no symbolic comparison needed
+                else:
+                    terms.append((a, b))
+            return bool(all_(ndarray([E.seq(a, b) for a, b in terms]))) if terms else True
+
         out = []
         for i in order:
-            if _b.any(bool(all_(ndarray([E.seq(a, b) for a, b in zip(o, rows[i])]))) for o in out):
+            if _b.any(same_row(o, rows[i]) for o in out):
                 continue
             out.append(rows[i])
         return ndarray(out)
